@@ -1,3 +1,3 @@
 R BHS.Locator
-X Locator.latest_locator Locator.locate Locator.answer Locator.spec_locator Locator.spec_locate Locator.main_chain Locator.max_entries Locator.cap Locator.tip_chain Locator.spec_locator_mc Locator.spec_locate_mc
+X Locator.latest_locator Locator.locate Locator.answer Locator.spec_locator Locator.spec_locate Locator.main_chain Locator.max_entries Locator.cap Locator.sql_max_vars Locator.tip_chain Locator.spec_locator_mc Locator.spec_locate_mc
 X ChainSpec.spec_run_from ChainSpec.spec_store Chain.run_from Chain.init
